@@ -200,6 +200,18 @@ func (_this *Context) BeginMap() {
 }
 
 func (_this *Context) NotifyKey(key interface{}) {
+	if v, ok := key.(negint); ok && v != 0 {
+		// Convert to the form that OnInt or OnBigInt would have delivered for
+		// this value so that it normalizes to the same key below. Negative
+		// zero remains a key of its own.
+		if uint64(v) <= 1<<63 {
+			key = -int64(v-1) - 1
+		} else {
+			bigValue := new(big.Int).SetUint64(uint64(v))
+			key = bigValue.Neg(bigValue)
+		}
+	}
+
 	switch v := key.(type) {
 	case int:
 		if v >= 0 {
